@@ -165,6 +165,11 @@ fn judge(case: &Case, obs: &Obs) -> (Vec<Violation>, BTreeMap<String, u64>, bool
                 continue;
             }
         }
+        if let (Some(sc), true) = (soc0, vc.kind != "ice") {
+            if (0.0..=100.0).contains(&sc) && resp.get("error").and_then(|e| e.as_str()).map_or(false, |e| e.contains("starting_soc_percent")) {
+                v.push(Violation { class: "soc-in-range-rejected".into(), detail: format!("starting charge {} is within 0-100 but was rejected: {}", sc, resp["error"]) });
+            }
+        }
         let route = match resp.get("route") {
             Some(r) if r.is_object() => r,
             _ => continue,
